@@ -2,6 +2,7 @@ package driver
 
 import (
 	"fmt"
+	"sync"
 	"time"
 
 	"apdsim/plan"
@@ -42,10 +43,65 @@ func minimise(cfg *config, job *Job, p *plan.Plan, v plan.Violation, budget time
 		bestV = got
 		return true
 	}
+	// testMany evaluates candidates concurrently (fresh processes) and adopts
+	// the first one, in order, that still fails the same way.
+	var mu sync.Mutex
+	testMany := func(cs []*plan.Plan) int {
+		if len(cs) == 0 {
+			return -1
+		}
+		type res struct {
+			ok  bool
+			got plan.Violation
+		}
+		out := make([]res, len(cs))
+		var wg sync.WaitGroup
+		sem := make(chan struct{}, 8)
+		for i := range cs {
+			mu.Lock()
+			stop := tried >= 600 || time.Now().After(deadline)
+			tried++
+			mu.Unlock()
+			if stop {
+				break
+			}
+			wg.Add(1)
+			sem <- struct{}{}
+			go func(i int) {
+				defer wg.Done()
+				defer func() { <-sem }()
+				var got plan.Violation
+				for r := 0; r < repeats; r++ {
+					viols, _, infra := execPlan(cfg, job.Variant, job.Race, cs[i], fmt.Sprintf("%d-%d-%d", job.Seed%1000, p.Run, i))
+					if infra != "" {
+						return
+					}
+					g, ok := hasClass(viols, v.Class, v.Key)
+					if !ok {
+						return
+					}
+					got = g
+				}
+				out[i] = res{true, got}
+			}(i)
+		}
+		wg.Wait()
+		for i := range out {
+			if out[i].ok {
+				best = cs[i].Clone()
+				bestV = out[i].got
+				return i
+			}
+		}
+		return -1
+	}
+	_ = testMany
 	// confirm the failure reproduces from the plan file at all
 	if !test(best.Clone()) {
 		return p, v
 	}
+	parallelTest = testMany
+	defer func() { parallelTest = nil }()
 	switch p.Workload {
 	case "c18":
 		shrinkC18(best, test, func() *plan.Plan { return best })
@@ -133,7 +189,7 @@ func ddmin(n int, try func(keep []bool) bool) {
 }
 
 func shrinkSteps(task int, test func(*plan.Plan) bool, cur func() *plan.Plan) {
-	ddmin(len(cur().Tasks[task].Steps), func(keep []bool) bool {
+	build := func(keep []bool) *plan.Plan {
 		b := cur()
 		c := b.Clone()
 		c.Tasks[task].Steps = c.Tasks[task].Steps[:0]
@@ -142,9 +198,45 @@ func shrinkSteps(task int, test func(*plan.Plan) bool, cur func() *plan.Plan) {
 				c.Tasks[task].Steps = append(c.Tasks[task].Steps, b.Tasks[task].Steps[i])
 			}
 		}
-		return test(c)
-	})
+		return c
+	}
+	if parallelTest == nil {
+		ddmin(len(cur().Tasks[task].Steps), func(keep []bool) bool { return test(build(keep)) })
+		return
+	}
+	// parallel variant: all chunk removals of one granularity are tried at once
+	n := len(cur().Tasks[task].Steps)
+	for chunk := (n + 1) / 2; chunk >= 1 && n > 0; {
+		var cands []*plan.Plan
+		var sizes []int
+		for start := 0; start < n; start += chunk {
+			end := start + chunk
+			if end > n {
+				end = n
+			}
+			keep := make([]bool, n)
+			for i := range keep {
+				keep[i] = i < start || i >= end
+			}
+			cands = append(cands, build(keep))
+			sizes = append(sizes, end-start)
+		}
+		if i := parallelTest(cands); i >= 0 {
+			n -= sizes[i]
+			if chunk > n && n > 0 {
+				chunk = n
+			}
+			continue
+		}
+		if chunk == 1 {
+			break
+		}
+		chunk = (chunk + 1) / 2
+	}
 }
+
+// parallelTest is installed by minimise for the duration of one minimisation.
+var parallelTest func([]*plan.Plan) int
 
 func shrinkC18(_ *plan.Plan, test func(*plan.Plan) bool, cur func() *plan.Plan) {
 	// 1. is the schedule needed at all? (a data race is reported whatever the
